@@ -37,6 +37,34 @@ UNITS = {
              'find': 'self.m2o.extend(0..self.modified.len() + 1);', 'replace': 'self.m2o.extend(0..self.modified.len() + 0);'},
         ],
     },
+    'v_conn': {
+        'tpl': 'units/v_conn.rs.tpl', 'rlimit': 30,
+        'mutants': [
+            {'name': 'matrix indexed column-major', 'file': 'sudachi/src/dic/connect.rs',
+             'find': 'let index = uright * self.num_left + uleft;', 'replace': 'let index = uleft * self.num_right + uright;'},
+            {'name': 'off-by-one cell', 'file': 'sudachi/src/dic/connect.rs',
+             'find': 'let index = uright * self.num_left + uleft;', 'replace': 'let index = uright * self.num_left + uleft + 1;'},
+        ],
+    },
+    'v_lattice': {
+        'tpl': 'units/v_lattice.rs.tpl', 'rlimit': 60,
+        'mutants': [
+            {'name': 'maximise instead of minimise', 'file': 'sudachi/src/analysis/lattice.rs',
+             'find': 'if new_cost < min_cost {', 'replace': 'if new_cost > min_cost || min_cost == i32::MAX {'},
+            {'name': 'connection cost dropped', 'file': 'sudachi/src/analysis/lattice.rs',
+             'find': 'let new_cost = l_node.total_cost() + connect_cost + node_cost;', 'replace': 'let new_cost = l_node.total_cost() + node_cost;'},
+            {'name': 'connection ids swapped', 'file': 'sudachi/src/analysis/lattice.rs',
+             'find': 'conn.cost(l_node.right_id(), r_node.left_id()) as i32', 'replace': 'conn.cost(r_node.left_id(), l_node.right_id()) as i32'},
+            {'name': 'back pointer of the wrong node', 'file': 'sudachi/src/analysis/lattice.rs',
+             'find': 'prev_idx = NodeIdx::new(begin as u16, i as u16);', 'replace': 'prev_idx = NodeIdx::new(begin as u16, 0);'},
+            {'name': 'reset leaves stale rows', 'file': 'sudachi/src/analysis/lattice.rs',
+             'find': 'for v in data.iter_mut() {\n            v.clear();\n        }', 'replace': 'for v in data.iter_mut() {\n            if v.len() > 3 { v.clear(); }\n        }'},
+            {'name': 'eos connected from the wrong boundary', 'file': 'sudachi/src/analysis/lattice.rs',
+             'find': 'let eos_start = (len - 1) as u16;', 'replace': 'let eos_start = (len - 2) as u16;'},
+            {'name': 'path stops one early', 'file': 'sudachi/src/analysis/lattice.rs',
+             'find': 'if prev_idx.end() != 0 {', 'replace': 'if prev_idx.end() > 1 {'},
+        ],
+    },
 }
 
 NOT_APPLICABLE = {
@@ -46,6 +74,17 @@ for _i in range(1, 21):
     NOT_APPLICABLE.setdefault('C%02d' % _i, 'not yet under contract in this revision of /verif (see DESIGN.md build order)')
 
 PROPS = {
+    'C02': {
+        'level_text': 'Verus proves on the real connect_node/insert/connect_eos/fill_top_path (with the real accessor traits) that every stored cumulative cost is a minimum over connected predecessors (is_best) and that insert keeps the lattice invariant lat_wf; the proof fns theorem_viterbi / theorem_prefix_costs derive from lat_wf alone, for every lattice and matrix, that the EOS cost equals the cost of the emitted back-pointer path and is <= the cost of every other covering path, and that each stored cumulative cost equals the cost recomputed along the path; ConnectionMatrix::cost is proved to read the row-major cell right*num_left+left',
+        'level_note': 'precondition strict_no_overflow (no candidate i32 sum overflows or equals i32::MAX) is NOT established by callers at cost extremes: recorded as finding F10 under C03; assumed: nodes are inserted left to right (established by LatticeBuilder, not yet under contract), ids of dictionary words lie inside the matrix (C06/C20), rows hold <= 65535 nodes; CowArray viewed as Vec (R5); word parameters fetched from the lexicon are taken as given',
+        'verus': ['v_conn', 'v_lattice'],
+        'kani': [],
+        'assumptions': [
+            'strict_no_overflow: every candidate sum total+connection+word cost lies in [i32::MIN, i32::MAX) (finding F10)',
+            'LatticeBuilder inserts nodes in order of their begin offset; word ids/costs passed to insert are the dictionary parameters',
+            'every right id < num_left and left id < num_right for dictionary words (valid dictionary, C06) and plugin nodes (C20)',
+        ],
+    },
     'C08': {
         'level_text': 'Verus discharges, for every text, map and edit batch, the postcondition `resolved` of the real resolve_edits/add_replace: rewritten text = specification, new offset map has one entry per byte, is non-decreasing, start->start, end->end, unreplaced positions keep their image',
         'level_note': 'assumed: plugins emit ordered non-overlapping edits on char boundaries; std contracts of str slicing, push_str, Vec::extend/drain, char::encode_utf8 (trusted wrappers R8/R9/R13); 64-bit usize; code-point offset tables (fill_orig_b2c) and Python begin()/end() not yet under contract',
